@@ -572,8 +572,8 @@ def run(ctx):
                              "npseed": rng.randrange(2 ** 31)})
     ctx.exhaustive["L2_batches_and_normals"] = True
     # ---- L3
-    npairs = ctx.pick(400, 12000)
-    nnorm = ctx.pick(60, 1200)
+    npairs = ctx.pick(400, 30000)
+    nnorm = ctx.pick(60, 3000)
     cases = [gen_pair_case(rng, i + 1) for i in range(npairs)]
     cases += [gen_normals_case(rng, npairs + i + 1, big=(not ctx.quick) or i % 10 == 0) for i in range(nnorm)]
     chunk = 4000
